@@ -30,6 +30,19 @@ def run(ctx):
             common.standard_program_calls(camp, rng, prog, con, kw, nvalues=3, ninputs=4, clauses=CLAUSES, offsets=False, maxlen=8)
             if i < 3:
                 ctx.sample({"program": prog})
+        # bit-level regions of signed fields: every pattern of one-byte regions, the boundary patterns of two-byte ones
+        S = lambda w, sw=False: A.BitsInteger(w, signed=True, swapped=sw)
+        bitprogs = [A.BitStruct(A.Renamed("a", S(3)), A.Renamed("b", S(5))), A.BitStruct(A.Renamed("a", S(1)), A.Renamed("b", S(7))),
+                    A.Bitwise(S(8)), A.BitStruct(A.Renamed("a", S(4)), A.Renamed("b", A.BitsInteger(4))),
+                    A.BitStruct(A.Renamed("a", S(16, True))), A.BitStruct(A.Renamed("a", S(9)), A.Renamed("b", S(7))), A.Bitwise(A.Array(2, S(8)))]
+        for prog in bitprogs:
+            con = campaign.realizable(prog)
+            width = con.sizeof()
+            pats = [bytes([b]) for b in range(256)] if width == 1 else \
+                   [bytes([a, b]) for a in (0x00, 0x80, 0x7f, 0xff, 0x40, 0xc0, 0x01) for b in (0x00, 0x80, 0x7f, 0xff, 0x01)]
+            for data in (pats if not quick else pats[::2] + [b"\x80", b"\x90", b"\x84", b"\x88", b"\xc0"][:5] if width == 1 else pats):
+                camp.roundtrip_from_bytes(prog, con, data, {})
+            camp.sh.maybe_flush()
         # spec -> code: on the sessions TLC explores on the model's universe, the four-call session from the same input
         # and the three-call session from the value the specification parsed
         uprogs, ukw, sessions, _ = speccode.explore(ctx, focus="all", part=speccode.part_of(ctx, 32 if quick else 48))
